@@ -6,6 +6,8 @@ import Mathlib.Tactic.Ring
 import Mathlib.Tactic.FinCases
 import Mathlib.Tactic.FieldSimp
 import Mathlib.Algebra.Field.Basic
+import Mathlib.Algebra.BigOperators.Fin
+import Mathlib.Tactic.Abel
 
 /-!
 # TreeDynRefine — the structured 6-D operations of the executable model are the dense matrix operations
@@ -216,5 +218,55 @@ theorem ArtI.shift_toMat (p : ArtI K) (l : V3 K) :
   simp only [M33.add_toMat, Sym3.crossLeft_toMat, transpose_add, transpose_mul, Sym3.toMat_symm,
     transpose_one, transpose_zero, Matrix.one_mul, Matrix.mul_one, Matrix.zero_mul, Matrix.mul_zero,
     add_zero, zero_add]
+
+/-! ### the hinge matrix as a list of spatial columns -/
+
+/-- the hinge matrix `H` (6 × d) of a list of spatial columns -/
+def hMat (h : List (SV K)) : Matrix I6 (Fin h.length) K := fun i j => (h.get j).toVec i
+/-- a list of scalars as a vector indexed by `Fin d` (missing entries are 0) -/
+def lvec (d : Nat) (u : List K) : Fin d → K := fun j => u.getD j 0
+
+theorem foldl_SV_add_toVec (xs : List (SV K)) (a : SV K) :
+    (xs.foldl SV.add a).toVec = a.toVec + (xs.map SV.toVec).sum := by
+  induction xs generalizing a with
+  | nil => simp
+  | cons x xs ih => simp only [List.foldl_cons, List.map_cons, List.sum_cons, ih, SV.add_toVec]; abel
+
+theorem hMat_mulVec : ∀ (h : List (SV K)) (u : List K),
+    hMat h *ᵥ lvec h.length u = (List.zipWith (fun c s => s • c.toVec) h u).sum
+  | [], u => by
+      funext i; simp [Matrix.mulVec, dotProduct]
+  | c :: cs, [] => by
+      funext i; simp [Matrix.mulVec, dotProduct, lvec]
+  | c :: cs, s :: ss => by
+      have ih := hMat_mulVec cs ss
+      funext i
+      have ihi := congrFun ih i
+      simp only [Matrix.mulVec, dotProduct, List.zipWith_cons_cons, List.sum_cons, Pi.add_apply, Pi.smul_apply,
+        smul_eq_mul] at *
+      rw [← ihi]
+      simp only [List.length_cons]
+      rw [Fin.sum_univ_succ]
+      simp [hMat, lvec, mul_comm]
+
+/-- `H * u` of the executable model (fold over the columns) is the dense matrix–vector product -/
+theorem hMul_toVec (h : List (SV K)) (u : List K) : (hMul h u).toVec = hMat h *ᵥ lvec h.length u := by
+  rw [hMat_mulVec]
+  simp only [hMul, foldl_SV_add_toVec, SV.zero_toVec, zero_add]
+  congr 1
+  induction h generalizing u with
+  | nil => simp
+  | cons c cs ih =>
+    cases u with
+    | nil => simp
+    | cons s ss => simp only [List.zipWith_cons_cons, List.map_cons, SV.smul_toVec, ih]
+
+/-- `~H * F` of the executable model (one spatial dot product per column) is the dense transposed product -/
+theorem hTMul_toVec (h : List (SV K)) (f : SV K) (j : Fin h.length) :
+    (hTMul h f).getD j 0 = ((hMat h)ᵀ *ᵥ f.toVec) j := by
+  simp only [hTMul, Matrix.mulVec, dotProduct, Matrix.transpose_apply, hMat]
+  have hj : (j : Nat) < (List.map (fun c => c.dot f) h).length := by simp
+  rw [List.getD_eq_getElem?_getD, List.getElem?_eq_getElem hj]
+  simp only [Option.getD_some, List.getElem_map, SV.dot_toVec, dotProduct, List.get_eq_getElem]
 
 end TreeDyn
